@@ -248,13 +248,22 @@ impl<Endpoint: Ord + Clone> BlockHandler<Endpoint> {
             .chunks(request_block_size)
             .skip(usize::from(request_block2.num));
 
-        let cached_payload_chunk = chunks.next().ok_or_else(|| {
-            HandlingError::bad_request(format!(
-                "num={}, block_size={}",
-                request_block2.num,
-                request_block2.size()
-            ))
-        })?;
+        let first_block_of_empty_payload =
+            request_block2.num == 0 && cached_payload.is_empty();
+        let cached_payload_chunk = chunks
+            .next()
+            .or(if first_block_of_empty_payload {
+                Some(&[][..])
+            } else {
+                None
+            })
+            .ok_or_else(|| {
+                HandlingError::bad_request(format!(
+                    "num={}, block_size={}",
+                    request_block2.num,
+                    request_block2.size()
+                ))
+            })?;
 
         let response_payload = &mut response.message.payload;
         response_payload.clear();
